@@ -357,6 +357,12 @@ def do_calc(c):
         s = activation.Sample("Co", 1.0)
         s.calculate_activation(activation.ActivationEnvironment(fluence=1e8), exposure=1, rest_times=[0, 1])
         return ser(sorted((str(k.daughter), v) for k, v in s.activity.items()))
+    if c == "activation_iaea":
+        from periodictable import activation
+        s = activation.Sample("Co", 1.0)
+        s.calculate_activation(activation.ActivationEnvironment(fluence=1e8), exposure=1, rest_times=[0, 1],
+                               abundance=activation.IAEA1987_isotopic_abundance)
+        return ser(sorted((str(k.daughter), v) for k, v in s.activity.items()))
     if c == "d2o_match":
         from periodictable import nsf
         return ser(nsf.D2O_match("C3H4H[1]NO@1.29n"))
